@@ -375,18 +375,20 @@ def subterms_removed(v):
             yield v[:i] + [sub] + v[i + 1:]
 
 
-def shrink(case, still_fails, budget=400, fixed_prefix=1):
-    """greedy structural delta-debugging; case[0:fixed_prefix] (the opcode) is kept"""
+def shrink(case, still_fails, budget=400, fixed_prefix=1, wall_budget=150):
+    """greedy structural delta-debugging; case[0:fixed_prefix] (the opcode) is kept;
+    stops after `budget` candidates or `wall_budget` seconds"""
     cur = case
     tried = 0
     improved = True
-    while improved and tried < budget:
+    t_end = time.time() + wall_budget
+    while improved and tried < budget and time.time() < t_end:
         improved = False
         head, body = cur[:fixed_prefix], cur[fixed_prefix:]
         for cand_body in subterms_removed(body):
             cand = head + cand_body
             tried += 1
-            if tried > budget:
+            if tried > budget or time.time() > t_end:
                 break
             try:
                 if still_fails(cand):
